@@ -217,22 +217,24 @@ Definition conv_class (ref got : tr) : N :=
   else if tr_prefix (chain_of ref) (chain_of got) && ((h1 <? h2) || ((h1 =? h2) && (r1 <=? r2))) then 1
   else 2.
 
-Fixpoint conv_trace_bad (cls : N) (i : nat) (s : kstate) (steps : list (xop * N * tr)) : option nat :=
+(** [redos]: indices of the crashed steps whose successor is the REDELIVERY of the same operation (the
+    harness tells which; a crashed operation that is not offered again is not judged) *)
+Fixpoint conv_trace_bad (redos : list nat) (cls : N) (i : nat) (s : kstate) (steps : list (xop * N * tr)) : option nat :=
   match steps with
   | [] => None
   | (XCrash k o, r, ob) :: (((XOp o', r', ob') :: _) as rest) =>
       let bad := match step s o with
-                 | Ok (sref, _) => conv_class (observe sref) ob' =? cls
+                 | Ok (sref, _) => existsb (Nat.eqb i) redos && (conv_class (observe sref) ob' =? cls)
                  | Panic _ => false
                  end in
       if bad then Some (S i) else
       match xstep s (XCrash k o) with
-      | Ok (s', _) => conv_trace_bad cls (S i) s' rest
+      | Ok (s', _) => conv_trace_bad redos cls (S i) s' rest
       | Panic _ => None
       end
   | (x, _, _) :: rest =>
       match xstep s x with
-      | Ok (s', _) => conv_trace_bad cls (S i) s' rest
+      | Ok (s', _) => conv_trace_bad redos cls (S i) s' rest
       | Panic _ => None
       end
   end.
